@@ -259,7 +259,8 @@ impl<'a> Iterator for ExtDiagBlockIter<'a> {
             // Identifier-based Diagnostics
             0b01 => {
                 let length = usize::from(header & 0x3f);
-                if remainder.len() < length {
+                // The length includes the header byte, so 0 is malformed.
+                if length == 0 || remainder.len() < length {
                     log::warn!("Diagnostics cut off: {:?}", remainder);
                     self.cursor = raw_buffer.len();
                     return None;
@@ -291,7 +292,8 @@ impl<'a> Iterator for ExtDiagBlockIter<'a> {
             // Device-based Diagnostics
             0b00 => {
                 let length = usize::from(header & 0x3f);
-                if remainder.len() < length {
+                // The length includes the header byte, so 0 is malformed.
+                if length == 0 || remainder.len() < length {
                     log::warn!("Diagnostics cut off: {:?}", remainder);
                     self.cursor = raw_buffer.len();
                     return None;
